@@ -36,22 +36,34 @@ type source struct {
 // sources maps a tag key to the source that feeds the fields declared under it.
 type sources map[string]*source
 
-func (ss sources) forField(f *fieldD) *source {
-	if f.NoTag {
-		// an untagged field is read by every unmarshaler; the generators only emit untagged
-		// fields when there is exactly one source
-		for _, s := range ss {
-			return s
+func (ss sources) all() []*source {
+	out := make([]*source, 0, len(ss))
+	for _, k := range []string{"json", "form", "path", "header", "key", "cfg"} {
+		if s := ss[k]; s != nil {
+			out = append(out, s)
 		}
 	}
-	return ss[f.Src]
+	return out
+}
+
+// readers: the sources (of the candidates) whose unmarshaler reads field f: go-zero skips a
+// tagged field that lacks the unmarshaler's tag key; an untagged field is read by everyone.
+func readers(cands []*source, f *fieldD) []*source {
+	var out []*source
+	for _, s := range cands {
+		if f.NoTag || f.Src == s.ctx.TagKey {
+			out = append(out, s)
+		}
+	}
+	return out
 }
 
 type reason struct {
-	Kind  string // required-missing | range-not-enforced | option-not-enforced
-	Class string // option combination + dependency state
-	Path  string
-	What  string
+	Kind     string // required-missing | range-not-enforced | option-not-enforced
+	Class    string // option combination + dependency state
+	Path     string
+	What     string
+	Supplied bool // the clause is about a supplied value (binds even inside optional embedded structs)
 }
 
 // verdict of the reference validator for one (type, input).
@@ -77,7 +89,7 @@ func (v *verdict) unk(format string, a ...any) {
 }
 
 func (v *verdict) mustReject(kind, class, path, what string) {
-	v.must = append(v.must, reason{kind, class, path, what})
+	v.must = append(v.must, reason{kind, class, path, what, kind != "required-missing"})
 }
 
 func joinPath(a, b string) string {
@@ -90,38 +102,34 @@ func joinPath(a, b string) string {
 // reference evaluates the declared constraints of sd against the inputs.
 func reference(sd *structD, ss sources) *verdict {
 	v := &verdict{}
-	v.evalFields(sd.Fields, ss, nil, nil, "")
+	v.evalFields(sd.Fields, ss.all(), nil, "")
 	return v
 }
 
-// evalFields: at the top level (src == nil) each field picks its source by tag key; below
-// that the source and tree of the enclosing struct are inherited.
-func (v *verdict) evalFields(fields []*fieldD, ss sources, src *source, tree map[string]any, path string) {
+// evalFields: cands are the sources that read the enclosing struct. tree == nil means "each
+// source's own top-level tree" (top level and untagged embedded structs below it).
+func (v *verdict) evalFields(fields []*fieldD, cands []*source, tree map[string]any, path string) {
 	for _, f := range fields {
-		s, t := src, tree
-		if s == nil {
-			s = ss.forField(f)
-			if s == nil {
-				continue // declared under a tag key nobody reads: skipped by go-zero, never required
-			}
-			t = s.tree
-		} else if !f.NoTag && f.Src != s.ctx.TagKey {
-			continue
-		}
 		if f.Ignore {
 			continue
 		}
-		if f.Embedded {
-			v.evalEmbedded(f, ss, s, t, path)
-			continue
+		for _, s := range readers(cands, f) {
+			t := tree
+			if t == nil {
+				t = s.tree
+			}
+			if f.Embedded {
+				v.evalEmbedded(f, s, tree, t, path)
+			} else {
+				v.evalField(f, s, t, path)
+			}
 		}
-		v.evalField(f, ss, s, t, path)
 	}
 }
 
-func (v *verdict) evalEmbedded(f *fieldD, ss sources, s *source, tree map[string]any, path string) {
+func (v *verdict) evalEmbedded(f *fieldD, s *source, inherited, tree map[string]any, path string) {
 	if f.Opt == optNone {
-		v.evalFields(f.Sub.Fields, ss, s, tree, path)
+		v.evalFields(f.Sub.Fields, []*source{s}, inherited, path)
 		return
 	}
 	// `,optional` on an embedded struct: go-zero fills it only if some member is present and
@@ -142,7 +150,7 @@ func (v *verdict) evalEmbedded(f *fieldD, ss sources, s *source, tree map[string
 		v.unk("optional embedded struct %s partially supplied", f.GoName)
 	}
 	sub := &verdict{}
-	sub.evalFields(f.Sub.Fields, ss, s, tree, path)
+	sub.evalFields(f.Sub.Fields, []*source{s}, tree, path)
 	// range / option violations of supplied members still bind; "required-missing" inside an
 	// optional embedded struct is not claimed
 	for _, r := range sub.must {
@@ -167,7 +175,7 @@ func (v *verdict) add(o *verdict) {
 	v.nAbsentOptional += o.nAbsentOptional
 }
 
-func (v *verdict) evalField(f *fieldD, ss sources, s *source, tree map[string]any, path string) {
+func (v *verdict) evalField(f *fieldD, s *source, tree map[string]any, path string) {
 	ctx := s.ctx
 	leaf, present := tree[ctx.canon(f.key())]
 	null := present && leaf == nil
@@ -223,7 +231,7 @@ func (v *verdict) evalField(f *fieldD, ss sources, s *source, tree map[string]an
 			}
 			// an absent non-optional struct: its own required scalars were not supplied either
 			v.unk("non-optional struct %s absent", p)
-			v.evalFields(f.Sub.Fields, ss, s, map[string]any{}, p)
+			v.evalFields(f.Sub.Fields, []*source{s}, map[string]any{}, p)
 		default:
 			if !optional && !f.HasDef {
 				v.unk("non-optional %s %s absent", f.Kind, p)
@@ -247,7 +255,7 @@ func (v *verdict) evalField(f *fieldD, ss sources, s *source, tree map[string]an
 			v.unk("%s: not an object", p)
 			return
 		}
-		v.evalFields(f.Sub.Fields, ss, s, m, p)
+		v.evalFields(f.Sub.Fields, []*source{s}, m, p)
 	case reflect.Slice:
 		arr, ok := asArray(leaf)
 		if !ok {
@@ -258,7 +266,7 @@ func (v *verdict) evalField(f *fieldD, ss sources, s *source, tree map[string]an
 			v.unk("%s: empty list in a string-valued source", p)
 		}
 		for i, el := range arr {
-			v.evalElem(f.Elem, ss, s, el, fmt.Sprintf("%s[%d]", p, i))
+			v.evalElem(f.Elem, s, el, fmt.Sprintf("%s[%d]", p, i))
 		}
 		if f.Rng != nil || len(f.Options) > 0 || f.FromStr {
 			v.unk("%s: scalar options on a slice", p)
@@ -270,7 +278,7 @@ func (v *verdict) evalField(f *fieldD, ss sources, s *source, tree map[string]an
 			return
 		}
 		for k, el := range m {
-			v.evalElem(f.Elem, ss, s, el, fmt.Sprintf("%s[%s]", p, k))
+			v.evalElem(f.Elem, s, el, fmt.Sprintf("%s[%s]", p, k))
 		}
 		if f.Rng != nil || len(f.Options) > 0 || f.FromStr {
 			v.unk("%s: scalar options on a map", p)
@@ -280,7 +288,7 @@ func (v *verdict) evalField(f *fieldD, ss sources, s *source, tree map[string]an
 	}
 }
 
-func (v *verdict) evalElem(e *fieldD, ss sources, s *source, el any, p string) {
+func (v *verdict) evalElem(e *fieldD, s *source, el any, p string) {
 	if el == nil {
 		v.unk("%s: null element", p)
 		return
@@ -292,7 +300,7 @@ func (v *verdict) evalElem(e *fieldD, ss sources, s *source, el any, p string) {
 			v.unk("%s: element is not an object", p)
 			return
 		}
-		v.evalFields(e.Sub.Fields, ss, s, m, p)
+		v.evalFields(e.Sub.Fields, []*source{s}, m, p)
 	case reflect.Slice:
 		arr, ok := asArray(el)
 		if !ok {
@@ -300,7 +308,7 @@ func (v *verdict) evalElem(e *fieldD, ss sources, s *source, el any, p string) {
 			return
 		}
 		for i, x := range arr {
-			v.evalElem(e.Elem, ss, s, x, fmt.Sprintf("%s[%d]", p, i))
+			v.evalElem(e.Elem, s, x, fmt.Sprintf("%s[%d]", p, i))
 		}
 	default:
 		if !typedCorrect(e.Kind, el, s.ctx, s.ctx.AllFromString) {
@@ -331,7 +339,10 @@ func (v *verdict) evalScalar(f *fieldD, ctx *ctxD, leaf any, p, cls string) {
 	if f.Rng != nil {
 		if isNumeric(f.Kind) {
 			if x, ok := numericValue(leaf); ok {
-				if f.Rng.contains(x) {
+				if math.IsNaN(x) {
+					v.nRangeOut++
+					v.must = append(v.must, reason{"range-not-enforced", "NaN", p, fmt.Sprintf("supplied %v is not a number inside range=%s", show(leaf), f.Rng.text()), true})
+				} else if f.Rng.contains(x) {
 					v.nRangeIn++
 				} else {
 					v.nRangeOut++
@@ -429,10 +440,10 @@ func numericValue(leaf any) (float64, bool) {
 	switch x := leaf.(type) {
 	case json.Number:
 		f, err := strconv.ParseFloat(string(x), 64)
-		return f, err == nil && !math.IsNaN(f)
+		return f, err == nil
 	case string:
 		f, err := strconv.ParseFloat(x, 64)
-		return f, err == nil && !math.IsNaN(f)
+		return f, err == nil
 	case bool, nil, []any, map[string]any, []string:
 		return 0, false
 	}
@@ -546,17 +557,14 @@ func interpret(k reflect.Kind, leaf any) (any, bool) {
 		return u, err == nil
 	case isFloat(k):
 		f, err := strconv.ParseFloat(text, 64)
-		if err != nil || math.IsNaN(f) {
+		if err != nil {
 			return nil, false
 		}
 		if k == reflect.Float32 {
-			if math.Abs(f) > math.MaxFloat32 {
+			if math.Abs(f) > math.MaxFloat32 && !math.IsInf(f, 0) {
 				return nil, false
 			}
 			return float64(float32(f)), true
-		}
-		if math.IsInf(f, 0) {
-			return nil, false
 		}
 		return f, true
 	case k == reflect.Bool:
@@ -613,27 +621,17 @@ func derefZero(v reflect.Value) bool {
 // for the absent ones" after a successful call.
 func compareTarget(sd *structD, target reflect.Value, ss sources) *comparer {
 	c := &comparer{ss: ss}
-	c.fields(sd.Fields, target, nil, nil, "", false)
+	c.fields(sd.Fields, target, ss.all(), nil, "", false)
 	return c
 }
 
-func (c *comparer) fields(fields []*fieldD, sv reflect.Value, src *source, tree map[string]any, path string, lenientAbsent bool) {
+// fields: see verdict.evalFields for cands / tree.
+func (c *comparer) fields(fields []*fieldD, sv reflect.Value, cands []*source, tree map[string]any, path string, lenientAbsent bool) {
 	for i, f := range fields {
 		fv := sv.Field(i)
-		s, t := src, tree
-		foreign := false
-		if s == nil {
-			s = c.ss.forField(f)
-			if s == nil {
-				foreign = true
-			} else {
-				t = s.tree
-			}
-		} else if !f.NoTag && f.Src != s.ctx.TagKey {
-			foreign = true
-		}
 		p := joinPath(path, f.key())
-		if foreign || f.Ignore {
+		rd := readers(cands, f)
+		if len(rd) == 0 || f.Ignore {
 			c.compared++
 			if !derefZero(fv) {
 				c.bad("ignored", f.Kind, p, "field is not read under this tag key, yet holds %v", fv.Interface())
@@ -647,8 +645,13 @@ func (c *comparer) fields(fields []*fieldD, sv reflect.Value, src *source, tree 
 					c.bad("supplied", f.Kind, p, "embedded struct pointer left nil")
 					continue
 				}
-				c.fields(f.Sub.Fields, d, s, t, path, false)
+				c.fields(f.Sub.Fields, d, rd, tree, path, lenientAbsent)
 				continue
+			}
+			s := rd[0]
+			t := tree
+			if t == nil {
+				t = s.tree
 			}
 			anyPresent := false
 			for _, ch := range f.Sub.Fields {
@@ -662,10 +665,17 @@ func (c *comparer) fields(fields []*fieldD, sv reflect.Value, src *source, tree 
 				}
 				continue
 			}
-			c.fields(f.Sub.Fields, d, s, t, path, true)
+			c.fields(f.Sub.Fields, d, rd[:1], t, path, true)
 			continue
 		}
-		c.field(f, fv, s, t, p, lenientAbsent)
+		if len(rd) > 1 {
+			continue // an untagged field read by several unmarshalers: not generated, not modelled
+		}
+		t := tree
+		if t == nil {
+			t = rd[0].tree
+		}
+		c.field(f, fv, rd[0], t, p, lenientAbsent)
 	}
 }
 
@@ -706,7 +716,7 @@ func (c *comparer) field(f *fieldD, fv reflect.Value, s *source, tree map[string
 			if !ok {
 				return
 			}
-			c.fields(f.Sub.Fields, d, s, map[string]any{}, p, lenientAbsent)
+			c.fields(f.Sub.Fields, d, []*source{s}, map[string]any{}, p, lenientAbsent)
 		default:
 			if f.HasDef {
 				return
@@ -729,7 +739,7 @@ func (c *comparer) field(f *fieldD, fv reflect.Value, s *source, tree map[string
 			c.bad("supplied", f.Kind, p, "struct was supplied but the pointer was left nil")
 			return
 		}
-		c.fields(f.Sub.Fields, d, s, m, p, false)
+		c.fields(f.Sub.Fields, d, []*source{s}, m, p, false)
 	case reflect.Slice:
 		arr, ok := asArray(leaf)
 		if !ok {
@@ -787,6 +797,14 @@ func (c *comparer) field(f *fieldD, fv reflect.Value, s *source, tree map[string
 			return
 		}
 		if !sameScalar(f.Kind, d, want) {
+			if f.Kind == reflect.Float32 {
+				// the string path parses straight to float32, the number path rounds twice
+				if t, ok := leafText(leaf); ok {
+					if f32, err := strconv.ParseFloat(t, 32); err == nil && d.Float() == f32 {
+						return
+					}
+				}
+			}
 			c.bad("supplied", f.Kind, p, "supplied %s, target holds %v", show(leaf), d.Interface())
 		}
 	}
@@ -824,7 +842,7 @@ func (c *comparer) elem(e *fieldD, ev reflect.Value, el any, s *source, p string
 			c.bad("supplied", e.Kind, p, "accepted %s for a struct element", show(el))
 			return
 		}
-		c.fields(e.Sub.Fields, d, s, m, p, false)
+		c.fields(e.Sub.Fields, d, []*source{s}, m, p, false)
 	case reflect.Slice:
 		arr, aok := asArray(el)
 		if !aok {
@@ -850,7 +868,7 @@ func sameScalar(k reflect.Kind, d reflect.Value, want any) bool {
 	case uint64:
 		return d.CanUint() && d.Uint() == w
 	case float64:
-		return d.CanFloat() && d.Float() == w
+		return d.CanFloat() && (d.Float() == w || math.IsNaN(w) && math.IsNaN(d.Float()))
 	case bool:
 		return d.Kind() == reflect.Bool && d.Bool() == w
 	case string:
